@@ -380,13 +380,14 @@ func writeEvidenceFile(path string, p *Property, tier string, cfgs []string, fun
 	if mutants != nil {
 		cov["self_validation_mutants"] = mutants
 	}
+	assumptions := append([]string{"the analysed tree type-checks and is modelled faithfully by go/ssa"}, p.Assumptions...)
 	ev := map[string]interface{}{
 		"property_id": p.ID,
 		"tier":        tier,
 		"seed":        seed,
 		"level":       "other",
 		"coverage":    cov,
-		"assumptions": p.Assumptions,
+		"assumptions": assumptions,
 		"wall_s":      wall.Seconds(),
 		"violations":  len(violations),
 	}
